@@ -53,6 +53,11 @@ def _common_ops(variants):
         if not st.phony:
             for o in st.all_outs():
                 ops.append({"op": "rm", "path": o, "label": "rm " + o})
+    for st in v0.stmts:
+        if st.deps == "gcc":
+            # a depfile left behind by an earlier failed or killed command
+            ops.append({"op": "write", "path": st.id + ".d", "content": st.id + ": " + " ".join(st.hidden) + "\n",
+                        "label": "leftover depfile " + st.id + ".d"})
     for i in range(1, len(variants)):
         ops.append({"op": "variant", "to": i, "label": "manifest:=" + variants[i].name})
     build = len(ops)
